@@ -417,6 +417,14 @@ def salts_for(fmt, quick, seed):
             out.append((f"size{n}", HS.filler(seed, n, b"c20salt%d" % n)))
             out.append((f"size{n}:walk", bytes((seed * 7 + n * 13 + i * 37 + 1) & 0xFF for i in range(n))))
         out.append(("size1:ff", b"\xff"))
+        # every symbol of the adapted-base64 alphabet in the salt TEXT (incl. '.' = 62 and '/' = 63, the two that
+        # differ from standard base64) at every alignment
+        import base64
+
+        out.append(("size48:whole_alphabet", base64.b64decode("ABCDEFGHIJKLMNOPQRSTUVWXYZabcdefghijklmnopqrstuvwxyz0123456789+/")))
+        out.append(("size3:all_dots", b"\xfb\xef\xbe"))
+        out.append(("size16:dots", (b"\xfb\xef\xbe" * 6)[:16]))
+        out.append(("size16:slashes", b"\xff" * 16))
         out.append(("size16:zero_bytes", b"\x00" * 16))
         return out
     n = 8 if quick else 64
